@@ -23,11 +23,19 @@ ASSUMPTIONS = ["reference model is Python's built-in set", "elements are hashabl
 REAL = ["gcmpy.tools.draw_set.DrawSet (from the working tree)", "CPython random.choice above the primitives"]
 STUB = ["entropy source (decision stream)"]
 
-KINDS = ("edge", "int", "str", "mixed")
+KINDS = ("edge", "int", "str", "mixed", "mixed", "exotic")
+# exotic elements: JSON tokens resolved per run to ONE object each (NaN has irreflexive equality: only identity makes it a
+# member; 1 / 1.0 / True and 0 / -0.0 / False are equal with equal hashes and must behave as one element)
+EXOTIC = ["__nan__", "__nan2__", "__nan_tuple__", 1, 1.0, True, 0, -0.0, False, "", [], "__none__", [1, 1.0], 2 ** 61 - 1, -1, -2,
+          "__decimal_nan__"]
 
 
 def _universe(prng, kind, n):
     out = []
+    if kind == "exotic":
+        pool = list(EXOTIC)
+        prng.shuffle(pool)
+        return pool[: max(2, min(n, len(pool)))]
     while len(out) < n:
         k = kind if kind != "mixed" else prng.choice(("edge", "int", "str"))
         if k == "edge":
@@ -74,8 +82,21 @@ def generate(prng, tier, index):
     return {"variant": variant, "universe": uni, "ops": ops, "policy": pol, "max_faults": prng.choice((1, 2, 3))}
 
 
+_NAN, _NAN2 = float("nan"), float("nan")
+_SPECIAL = {"__nan__": _NAN, "__nan2__": _NAN2, "__nan_tuple__": (0, _NAN), "__none__": None}
+try:
+    from decimal import Decimal
+    _SPECIAL["__decimal_nan__"] = Decimal("NaN")
+except Exception:       # pragma: no cover
+    _SPECIAL["__decimal_nan__"] = "decimal-unavailable"
+
+
 def _el(x):
-    return tuple(x) if isinstance(x, list) else x
+    if isinstance(x, list):
+        return tuple(x)
+    if isinstance(x, str) and x in _SPECIAL:
+        return _SPECIAL[x]          # the SAME object every time within a process: identity is what makes NaN a member
+    return x
 
 
 def _compare(ctx, ds, model, uni, after):
